@@ -373,7 +373,9 @@ func c08Run(e *core.Env) {
 			}
 		}
 	}
-	ctxs = append(ctxs, MkCtx(0, -100000, 100000, apd.RoundHalfUp, 0))
+	// precision 0 (rounding disabled) with the package range and with narrow ranges: a leftover coefficient of
+	// an infinity must not be range-checked either
+	ctxs = append(ctxs, MkCtx(0, -100000, 100000, apd.RoundHalfUp, 0), MkCtx(0, -1, 5, apd.RoundHalfEven, 0), MkCtx(0, -3, 9, apd.RoundFloor, apd.DefaultTraps), MkCtx(0, -6143, 6144, apd.RoundHalfUp, 0))
 	seen := map[string]bool{}
 	key := func(v ref.Val) string { return fmt.Sprintf("%d|%v|%s|%d", v.Form, v.Neg, v.Coef, v.Exp) }
 	for _, a := range alpha {
@@ -520,7 +522,7 @@ func init() {
 		Title: "Special values follow the decimal arithmetic rules in every operation",
 		Rule:  "all 22 Context operations x all operand pairs of the special alphabet (NaN/sNaN x signs x payloads, clean and dirty infinities, signed zeros of 9 exponents, 10 finite values x signs) x contexts x 3 trap sets, compared with the GDA special-value table (result class, sign, propagated payload, exact condition set, error iff trapped); closed to depth 2: special results of depth-1 operations become operands; non-trivial = a case for which the table prescribes a special outcome",
 		Bounds: func(tier string) string {
-			return fmt.Sprintf("alphabet %d values => %d ordered pairs; contexts: p in {1,3,9} (thorough {1,2,3,5,9,16}) x 2 ranges x {half_even, floor, ceiling} x traps {none, InvalidOperation, default} + precision 0; closure depth 2 with up to 300 produced representations", len(c08Alphabet()), len(c08Alphabet())*len(c08Alphabet()))
+			return fmt.Sprintf("alphabet %d values => %d ordered pairs; contexts: p in {1,3,9} (thorough {1,2,3,5,9,16}) x 2 ranges x {half_even, floor, ceiling} x traps {none, InvalidOperation, default} + precision 0 with the package range and three narrower ranges; closure depth 2 with up to 300 produced representations", len(c08Alphabet()), len(c08Alphabet())*len(c08Alphabet()))
 		},
 		Run:    c08Run,
 		Replay: c08Replay,
